@@ -99,6 +99,7 @@ type buildOpts struct {
 	extra   map[string]string
 	pkg     string // default ./worker
 	outName string
+	aux     string // auxiliary build: not sharded; its path is exported to the workers in this env variable
 }
 
 // buildWorker instruments /repo and builds the worker. Returns the binary path
@@ -465,9 +466,16 @@ func doCheck(id, tier string, keep bool) int {
 		pass     string
 	}
 	var passes []pass
+	var auxEnv []string
+	defer func() { globalAuxEnv = nil }()
 	for i, b := range bins {
+		if bos[i].aux != "" {
+			auxEnv = append(auxEnv, bos[i].aux+"="+b)
+			continue
+		}
 		passes = append(passes, pass{b, false, fmt.Sprintf("b%d", i)})
 	}
+	globalAuxEnv = auxEnv
 	if spec.testMode && tier == "thorough" {
 		passes = append(passes, pass{bins[0], true, "testmode"})
 	}
@@ -491,6 +499,7 @@ func doCheck(id, tier string, keep bool) int {
 					env = append(env, "GOMAXPROCS=1")
 				}
 				env = append(env, "VERIF_PASS="+p.pass, "VERIF_BIN="+p.bin)
+				env = append(env, auxEnv...)
 				r, err := runWorker(scratch, myidx, workerRun{bin: p.bin, testMode: p.testMode, env: env,
 					args: []string{"-check", id, "-tier", tier, "-shard", strconv.Itoa(s), "-nshards", strconv.Itoa(nshards),
 						"-deadline", strconv.Itoa(deadline), "-seed", strconv.FormatInt(seed, 10)},
@@ -710,6 +719,8 @@ func doCheck(id, tier string, keep bool) int {
 	return exit
 }
 
+var globalAuxEnv []string
+
 type replayOut struct {
 	Violated bool   `json:"violated"`
 	Sig      string `json:"sig"`
@@ -736,6 +747,7 @@ func replayCase(scratch, bin, id string, cas json.RawMessage, k int, spec *check
 	cmd.Stdout = fo
 	cmd.Stderr = fe
 	cmd.Env = append(cleanEnv(), "VERIF_BIN="+bin)
+	cmd.Env = append(cmd.Env, globalAuxEnv...)
 	if spec.gomax1 {
 		cmd.Env = append(cmd.Env, "GOMAXPROCS=1")
 	}
